@@ -111,18 +111,43 @@ Definition peak_arg (dx dy sigma : Q) (os : Z) : Q :=
 
 Definition Qlt_bool (a b : Q) : bool := negb (Qle_bool b a).
 
+(* ------------------------------------------------------------------ the peak threshold
+   peak_threshold > 0 is held as its logarithm `lthr` and compared with the argument of exp
+   (value = exp a).  peak_threshold = 0 — the CONSTRUCTOR DEFAULT of SingleInstanceInferenceModel,
+   CentroidCrop and FindInstancePeaks (the predictor classes default to 0.2) — has no logarithm: flag
+   `thr0`.  Every value exp a of an ideal map is > 0, so with thr0 every visible keypoint passes both
+   comparisons (`max_values < threshold` of find_global_peaks_rough, `cms > threshold` of
+   find_local_peaks_rough). *)
+Definition above_global (thr0 : bool) (lthr a : Q) : bool := thr0 || Qle_bool lthr a.   (* not (value < threshold) *)
+Definition above_local (thr0 : bool) (lthr a : Q) : bool := thr0 || Qlt_bool lthr a.    (* value > threshold *)
+
+(* An INVISIBLE keypoint: make_confmaps / generate_confmaps turn the NaN row into an all-zero channel
+   (nan_to_num).  find_global_peaks_rough on it: torch.max = 0 at the first cell (0, 0);
+   `0 < threshold` masks it (NaN, value 0) when threshold > 0, but with threshold = 0 the test
+   `0 < 0.0` is false and cell (0, 0) is RETURNED as a peak of value 0 (finding F02z; refinement None).
+   `fixed` = behaviour after proposed_fixes/C02_F02z.diff (a maximum that is not positive is no peak).
+   Result: (point or NaN, Some a = value exp a | None = value 0); `origin` = cell (0, 0) decoded.
+   With integral refinement the code then refines cell (0, 0) on an all-zero patch: 0/0 = NaN, value 0
+   (C06, selector F9: peak value <= 0) — not modelled here (the model is the rough chain); the harness
+   expects NaN / 0 for such rows and the selector of F02z requires refinement None. *)
+Definition zero_map_answer (thr0 fixed : bool) (origin : Q * Q) : kp * option Q :=
+  if thr0 && negb fixed then (Some origin, None) else (None, None).
+
 (* ------------------------------------------------------------------ single instance *)
 Inductive provider := LabelsReader | VideoReader.
 
-(* SingleInstancePredictor.make_pipeline: preprocess = False for LabelsReader,
-   True for VideoReader (F8).  `fixed` = behaviour after proposed_fixes/C02_F8.diff *)
+(* SingleInstancePredictor.make_pipeline, pinned tree: preprocess = False for LabelsReader,
+   True for VideoReader (F8).  `fixed` = behaviour after proposed_fixes/C02_F8.diff = fix cfdac41
+   (the current tree) *)
 Definition preprocess_flag (fixed : bool) (p : provider) : bool :=
   match p with VideoReader => true | LabelsReader => fixed end.
 
 Record si_cfg := { si_H : Z; si_W : Z; si_mh : option Z; si_mw : option Z;
                    si_scale : Q; si_ms : Z; si_os : Z;
                    si_sigma : Q; si_lthr : Q;       (* network sigma; ln(peak_threshold) *)
-                   si_fixed_F8 : bool }.
+                   si_fixed_F8 : bool;
+                   si_thr0 : bool;                  (* peak_threshold = 0 (si_lthr then unused) *)
+                   si_fixed_Fz : bool }.            (* proposed_fixes/C02_F02z.diff applied *)
 
 (* one axis of _predict_generator: (content map, size of the network input) *)
 Definition si_axis_geom (pre : bool) (n0 nm nt : Z) (resized : bool) (s : Q) (ms : Z) : aff * Z :=
@@ -149,7 +174,10 @@ Definition si_geom (c : si_cfg) (pv : provider) : (aff * Z) * (aff * Z) * Q :=
 
 Definition si_kp (c : si_cfg) (pv : provider) (p : kp) : kp * option Q :=
   match p with
-  | None => (None, None)
+  | None =>
+      let eff := snd (si_geom c pv) in
+      zero_map_answer (si_thr0 c) (si_fixed_Fz c)
+        (si_decode 0%Z (si_os c) (si_scale c) eff, si_decode 0%Z (si_os c) (si_scale c) eff)
   | Some (x, y) =>
       let '(gx, gy, eff) := si_geom c pv in
       let ux := aff_apply (fst gx) x in
@@ -158,7 +186,7 @@ Definition si_kp (c : si_cfg) (pv : provider) (p : kp) : kp * option Q :=
       let cy := nearest_cell uy (si_os c) (ncells (snd gy) (si_os c)) in
       let a := peak_arg (inject_Z cx * inject_Z (si_os c) - ux)
                         (inject_Z cy * inject_Z (si_os c) - uy) (si_sigma c) (si_os c) in
-      if Qle_bool (si_lthr c) a                     (* `max_values < threshold` -> NaN, value 0 *)
+      if above_global (si_thr0 c) (si_lthr c) a     (* `max_values < threshold` -> NaN, value 0 *)
       then (Some (si_decode cx (si_os c) (si_scale c) eff,
                   si_decode cy (si_os c) (si_scale c) eff), Some a)
       else (None, None)
@@ -181,7 +209,9 @@ Record td_cfg := { td_H : Z; td_W : Z; td_mh : option Z; td_mw : option Z;
                    td_msc : Z; td_msi : Z;          (* max strides *)
                    td_osc : Z; td_osi : Z;          (* output strides *)
                    td_ch : Z; td_cw : Z;            (* crop height, width *)
-                   td_sigma : Q; td_lthr : Q }.
+                   td_sigma : Q; td_lthr : Q;
+                   td_thr0 : bool;                  (* peak_threshold = 0 for both stages (td_lthr then unused) *)
+                   td_fixed_Fz : bool }.            (* proposed_fixes/C02_F02z.diff applied *)
 
 Record animal := { an_cent : Q * Q; an_kps : list kp }.
 
@@ -233,12 +263,14 @@ Definition td_cent_peak (c : td_cfg) (g : td_geom_t) (cent : Q * Q) : option (Z 
     let cy := nearest_cell uy (td_osc c) ny in
     let a := peak_arg (inject_Z cx * inject_Z (td_osc c) - ux)
                       (inject_Z cy * inject_Z (td_osc c) - uy) (td_sigma c) (td_osc c) in
-    if Qlt_bool (td_lthr c) a then Some (cx, cy, a) else None.   (* cms > threshold *)
+    if above_local (td_thr0 c) (td_lthr c) a then Some (cx, cy, a) else None.   (* cms > threshold *)
 
 (* instance stage for one keypoint, given the crop's top-left corner *)
 Definition td_kp (c : td_cfg) (g : td_geom_t) (tlx tly : Q) (p : kp) : kp * option Q :=
   match p with
-  | None => (None, None)
+  | None =>            (* all-zero channel: cell (0, 0) of the crop + the crop corner, when threshold = 0 *)
+      zero_map_answer (td_thr0 c) (td_fixed_Fz c)
+        (td_decode 0%Z (td_osi c) (td_si c) (tg_eff g) tlx, td_decode 0%Z (td_osi c) (td_si c) (tg_eff g) tly)
   | Some (x, y) =>
       let vx := aff_apply (tg_px g) x - tlx in
       let vy := aff_apply (tg_py g) y - tly in
@@ -246,7 +278,7 @@ Definition td_kp (c : td_cfg) (g : td_geom_t) (tlx tly : Q) (p : kp) : kp * opti
       let cy := nearest_cell vy (td_osi c) (ncells (tg_niy g) (td_osi c)) in
       let a := peak_arg (inject_Z cx * inject_Z (td_osi c) - vx)
                         (inject_Z cy * inject_Z (td_osi c) - vy) (td_sigma c) (td_osi c) in
-      if Qle_bool (td_lthr c) a
+      if above_global (td_thr0 c) (td_lthr c) a
       then (Some (td_decode cx (td_osi c) (td_si c) (tg_eff g) tlx,
                   td_decode cy (td_osi c) (td_si c) (tg_eff g) tly), Some a)
       else (None, None)
@@ -319,10 +351,10 @@ Definition td_cent_margin (c : td_cfg) (an : animal) : Q :=
 (* TopDownPredictor with centroid model = None (LabelsReader only): _predict_generator
    multiplies the labelled instances by eff_scale, CentroidCrop(use_gt_centroids=True)
    takes the midpoint of each instance's bounding box (anchor_ind = None) as centroid.
-   As pinned, `_generate_crops` runs BEFORE the image is resized by precrop_resize and
+   In the pinned tree `_generate_crops` runs BEFORE the image is resized by precrop_resize and
    before the centroids are scaled, while FindInstancePeaks still divides peaks and
-   bbox by input_scale.  `fixed` = behaviour after proposed_fixes/C02_F7.diff (resize and
-   scale first, as the predicted-centroid branch does). *)
+   bbox by input_scale.  `fixed` = behaviour after proposed_fixes/C02_F7.diff = fix 552121e, the
+   current tree (resize and scale first, as the predicted-centroid branch does). *)
 Definition opt_min (a : option Q) (b : Q) : option Q :=
   match a with None => Some b | Some v => Some (Qmin v b) end.
 Definition opt_max (a : option Q) (b : Q) : option Q :=
@@ -363,7 +395,8 @@ Definition td_gt_instance (fixed : bool) (c : td_cfg) (kps : list kp)
   end.
 
 (* ------------------------------------------------------------------ F7 (latent) *)
-(* _predict_generator, preprocess = True and instances_key = True:
+(* pinned tree (the current tree passes the scale, fix 552121e); evaluated nowhere.
+   _predict_generator, preprocess = True and instances_key = True:
    `apply_resizer(ex["image"], ex["instances"])` is called WITHOUT the scale, so
    neither the image nor the instances are resized (scale defaults to 1.0).
    Unreachable through make_pipeline (every predictor that sets instances_key
